@@ -333,6 +333,43 @@ fn thread_start_rounds(ctx: &mut Ctx, rounds: usize) {
     });
 }
 
+/// Volume: many draws of one size on one thread, all of them pairwise distinct in their first 256 bits.  A
+/// generator whose tables are a function of few random bits (a 32-bit key expanded to a whole table) passes every
+/// test on a few hundred draws and repeats itself after about 2^16; with D draws of independent 256-bit prefixes a
+/// repeat has probability below D^2 / 2^257 (2^-217 for D = 2^20): zero repeats are demanded.
+fn volume_distinct(ctx: &mut Ctx, draws: usize) {
+    fn run_one(ctx: &mut Ctx, ty: &str, n: usize, draws: usize, draw: &dyn Fn() -> Vec<u64>) {
+        let ev = Ev::new("volume", ty, n).int(draws);
+        ctx.event_digest(&format!("volume|{}|n={}", ty, n), (n as u64) << 8 | (ty.len() as u64), true, || ev.clone());
+        let r = guard(|| {
+            let mut keys: Vec<[u64; 4]> = Vec::with_capacity(draws);
+            for _ in 0..draws {
+                let b = draw();
+                keys.push([b[0], b[1], b[2], b[3]]);
+            }
+            keys.sort_unstable();
+            keys.windows(2).filter(|w| w[0] == w[1]).count()
+        });
+        ctx.bump("draws", draws as u64);
+        match r {
+            Outcome::Returned(rep) => {
+                ctx.check("draws-distinct", rep == 0, &ev, "volume", || {
+                    format!("{} of {} draws of {} n={} repeat the first 256 bits of an earlier draw (0 allowed)", rep, draws, ty, n)
+                });
+            }
+            Outcome::Panicked(m) => ctx.violate("no-panic", &ev, "panic", format!("random() panicked: {}", m)),
+        }
+    }
+    for n in 8..=MAX_N {
+        run_one(ctx, "Lut", n, draws, &|| volute::Lut::random(n).blocks().to_vec());
+    }
+    run_one(ctx, "LutN", 8, draws, &|| volute::Lut8::random().blocks().to_vec());
+    run_one(ctx, "LutN", 9, draws, &|| volute::Lut9::random().blocks().to_vec());
+    run_one(ctx, "LutN", 10, draws, &|| volute::Lut10::random().blocks().to_vec());
+    run_one(ctx, "LutN", 11, draws, &|| volute::Lut11::random().blocks().to_vec());
+    run_one(ctx, "LutN", 12, draws, &|| volute::Lut12::random().blocks().to_vec());
+}
+
 const MAX_N: usize = 12;
 
 fn main() {
@@ -358,6 +395,7 @@ fn main() {
     }
     let thorough = ctx.thorough();
     thread_start_rounds(&mut ctx, if thorough { 6000 } else { 400 });
+    volume_distinct(&mut ctx, if thorough { 1 << 20 } else { 1 << 18 });
     let mut irng = Rng::new(cli.seed ^ 0xc19);
     for _ in 0..if thorough { 4 } else { 1 } {
         interleaved_workload(&mut ctx, thorough, &mut irng);
